@@ -4,6 +4,7 @@ import (
 	"fmt"
 	"os"
 	"path/filepath"
+	"runtime/debug"
 	"strings"
 	"time"
 
@@ -99,6 +100,17 @@ func scenarioC09x(c *hlib.RunCtx) *hlib.Violation {
 	for i := 0; i < 3; i++ {
 		p.counters = append(p.counters, p.f.VerifNewCounter(fmt.Sprintf("c%d", i)))
 	}
+	// A second program starting at the same moment: both read, and when it is
+	// missing create, the same week-end setting.
+	var p2 *proc
+	if t.Bool(1, 3) {
+		save := w.bi
+		w.bi = &debug.BuildInfo{GoVersion: "go1.23.1", Path: "example.com/other/prog2", Main: debug.Module{Path: "example.com/other", Version: "v0.9.0"}}
+		p2 = w.newProc("app2")
+		w.bi = save
+		p2.counters = append(p2.counters, p2.f.VerifNewCounter("d0"))
+		s.Probe("second-program")
+	}
 	chooseStrategy(c, s, 300)
 	installQuarantine(w, c)
 
@@ -123,11 +135,18 @@ func scenarioC09x(c *hlib.RunCtx) *hlib.Violation {
 		w.refreshViews()
 		w.checkValuesBounded()
 		// A completed rotation freezes every file that is no longer current.
-		if strings.HasPrefix(tk.Name, "timer:") && tk.Done && !timerDone[tk] {
+		if strings.HasPrefix(tk.Name, "timer:") && tk.Proc == p.p && tk.Done && !timerDone[tk] {
 			timerDone[tk] = true
 			cur, _, _ := p.f.VerifCurrent()
+			cur2 := ""
+			if p2 != nil {
+				cur2, _, _ = p2.f.VerifCurrent()
+			}
 			for _, v := range w.views {
-				if v.path != cur && v.dec != nil && frozen[v.path] == nil {
+				if p2 != nil && strings.Contains(filepath.Base(v.path), "prog2") {
+					continue // the rotating process under observation is the first one
+				}
+				if v.path != cur && v.path != cur2 && v.dec != nil && frozen[v.path] == nil {
 					m := map[string]uint64{}
 					for n, val := range v.dec.Counts {
 						m[n] = val
@@ -163,6 +182,9 @@ func scenarioC09x(c *hlib.RunCtx) *hlib.Violation {
 	for ph := 0; ph < phases && w.viol == nil; ph++ {
 		if ph == 0 {
 			s.Spawn(p.p, "open", func() { enterAdd(); p.f.VerifRotate(); leaveAdd() })
+			if p2 != nil {
+				s.Spawn(p2.p, "open2", func() { enterAdd(); p2.f.VerifRotate(); leaveAdd(); simrt.Yield("op"); w.add(p2, p2.counters[0], 1) })
+			}
 		}
 		nadd := 1 + t.Draw(2)
 		for i := 0; i < nadd; i++ {
